@@ -92,6 +92,9 @@ func leftovers(t *testing.T, backend sim.Backend) {
 		conc1 := rapid.Bool().Draw(t, "concurrency1")
 		keys, splits, steps := prog.Gen(t, backend, 2, prog.Options{Aggressive: backend == sim.Mock, WaitLocks: true, NoLoss: true, NoReads: true})
 		res := run(backend, nStores, batch1, conc1, keys, splits, steps)
+		if r := res.w.Cl.Runaway(); r != "" {
+			t.Fatalf("VERIF-INFRA: a call did not terminate (judged by C02 / C05): %s\n  program: %s", r, prog.String(steps))
+		}
 		if res.hung != "" || res.infra != "" {
 			t.Fatalf("VERIF-INFRA: %s %s\n  program: %s", res.hung, res.infra, prog.String(steps))
 		}
